@@ -4,6 +4,11 @@ import json, os
 HERE = os.path.dirname(os.path.dirname(os.path.abspath(__file__)))
 
 CLAIMED = {
+ 'C19': dict(
+   text='Machine-checked proof (Coq 8.16) over the well-known table and the ExtendedCommunity::types table regenerated from the source on every run: building a community from 4 / 8 / 12 / 20 raw octets and reading them back is the identity; for every standard community (all 2^32: table names, unrecognised well-known values printed as 0xFFFFhhhh, reserved, private) from_str(to_string) returns it, every name / alternative name / variant name of the table parses to its row and value -> Wellknown -> value is the identity; the same text round trip for every large community, every extended community that prints in hexadecimal or as rt/ro with a two-octet AS, an IPv4 address or a four-octet AS above 65535, and every IPv6 extended community that prints in hexadecimal - both through the FromStr of the type itself and through Community::from_str (no text is claimed by a type tried earlier); every standard community is in exactly one of well-known / reserved / private, asn and tag decompose non-well-known values exactly; type, subtype and transitivity of an extended community follow its first two octets as RFC 4360 lays them out (all 65536 octet pairs).',
+   note='Trusted: Coq kernel + vm_compute for finite sweeps lifted by lemmas; translator tools/gen_comm.py (tables generated; FromStr / Display / accessor bodies pinned by hash); hand-written Model/Comm.v and Base/Text.v, which model (not verify) Rust std number / hex / Ipv4Addr formatting and parsing on ASCII text, built on the Coq stdlib decimal conversion with its round-trip lemma; tied by a differential run over raw values of every type octet and boundary class and over valid and mutated texts, plus a sweep of the property itself on the real crate over all 2^32 standard communities (thorough; stratified in quick). One defect fixed in /repo (hex text wider than the type parsed as the narrower type, so Community::from_str changed the type of 0x00000000XXXXXXXX).',
+   technique='Coq proof: decimal / hexadecimal print-parse round trips, split_once lemmas, table sweeps by vm_compute lifted to all values, case analysis on the print form; differential correspondence + exhaustive implementation sweep',
+   design='5/C19'),
  'C17': dict(
    text='Machine-checked proof (Coq 8.16): for every history of set / set_from_enum / add_attribute / remove / merge_upsert / remove_non_transitives the map has strictly ascending keys (at most one attribute per type code) and every attribute is filed under its own code; get after set returns the value, set reports what get returned before, remove returns it and leaves the type absent (others untouched), merge lets the other map win, the byte length is the sum of the encoded lengths, stripping non-transitives keeps exactly the entries whose type - for unrecognised / malformed ones whose received flags - is transitive; a map built from an accepted UPDATE holds every attribute except MP_REACH/MP_UNREACH and OwnedPathAttributes::get returns the same typed value for every type; the workshop returns what the preceding set stored, community lists included (flavour by flavour, in stored order), and one built from an UPDATE carries that NLRI next hop and no NEXT_HOP attribute.',
    note='Trusted: Coq kernel; hand-written Model/PaMap.v over the attribute / decoder models; tied by a differential run on operation histories over all 20 attribute kinds (values from small pools, unrecognised and malformed attributes, merges, workshop set/get, community lists mixing the four flavours) against a Python reference map, and on UPDATEs with repeated types as sources. Two defects found and fixed in /repo (first-vs-last of a repeated type; Vec<Community> store lost everything).',
